@@ -4,6 +4,8 @@
 package c01
 
 import (
+	"time"
+	"context"
 	"bytes"
 	"encoding/binary"
 	"encoding/json"
@@ -79,6 +81,8 @@ type Case struct {
 	Msgs   []Msg `json:"msgs"`
 	Reads  []int `json:"reads"` // read sizes cycled by piecewise receivers
 	Salt   uint32 `json:"salt"`
+	// Ctx: 0 context.Background(), 1 a cancellable context that is never cancelled, 2 a context with a far deadline
+	Ctx int `json:"ctx,omitempty"`
 }
 
 func (c Case) key() string {
@@ -104,6 +108,19 @@ type result struct {
 
 // runCase executes one case against the real streams and applies the oracle.
 func runCase(c Case) result {
+	// the context every call gets: the background context, one that can be cancelled (never is), or one with a
+	// far deadline - the stream takes a different read/write path for contexts that can end
+	ctx := context.Background()
+	switch c.Ctx {
+	case 1:
+		var cancel context.CancelFunc
+		ctx, cancel = context.WithCancel(ctx)
+		defer cancel()
+	case 2:
+		var cancel context.CancelFunc
+		ctx, cancel = context.WithTimeout(ctx, time.Hour)
+		defer cancel()
+	}
 	p := kit.NewPair()
 	if c.AES {
 		if c.Prefix&1 != 0 {
@@ -141,14 +158,14 @@ func runCase(c Case) result {
 		want := payload
 		switch c.Send {
 		case SSendMessage:
-			err = S.SendMessage(kit.Bg, payload)
+			err = S.SendMessage(ctx, payload)
 		case SPartials:
 			off := 0
 			for j, n := range cuts {
 				if j == len(cuts)-1 {
-					err = S.SendMessage(kit.Bg, payload[off:off+n])
+					err = S.SendMessage(ctx, payload[off:off+n])
 				} else {
-					err = S.SendPartialMessage(kit.Bg, payload[off:off+n])
+					err = S.SendPartialMessage(ctx, payload[off:off+n])
 				}
 				off += n
 				if err != nil {
@@ -159,13 +176,13 @@ func runCase(c Case) result {
 			S.StartMessage()
 			off := 0
 			for _, n := range cuts {
-				if err = S.WriteMessage(kit.Bg, payload[off:off+n]); err != nil {
+				if err = S.WriteMessage(ctx, payload[off:off+n]); err != nil {
 					break
 				}
 				off += n
 			}
 			if err == nil {
-				err = S.EndMessage(kit.Bg)
+				err = S.EndMessage(ctx)
 			}
 		case STypedBytes:
 			typed = true
@@ -177,34 +194,34 @@ func runCase(c Case) result {
 				off += n
 				switch {
 				case n == 1:
-					err = msg.PutChar(kit.Bg, piece[0])
+					err = msg.PutChar(ctx, piece[0])
 					want = append(want, piece[0])
 				case n == 8 && j%2 == 1:
 					v := int64(binary.BigEndian.Uint64(piece))
-					err = msg.PutInt64(kit.Bg, v)
+					err = msg.PutInt64(ctx, v)
 					want = append(want, piece...)
 				default:
-					err = msg.PutBytes(kit.Bg, piece)
+					err = msg.PutBytes(ctx, piece)
 					want = append(want, piece...)
 				}
 				if err == nil && m.Flush&(1<<uint(j%32)) != 0 {
-					err = msg.FlushFrame(kit.Bg, false)
+					err = msg.FlushFrame(ctx, false)
 				}
 				if err != nil {
 					break
 				}
 			}
 			if err == nil {
-				err = msg.FinishMessage(kit.Bg)
+				err = msg.FinishMessage(ctx)
 			}
 		case STypedString, STypedStringBytes:
 			typed = true
 			msg := message.NewMessageForStream(S)
 			str := stringSafe(payload)
 			if c.Send == STypedString {
-				err = msg.PutString(kit.Bg, string(str))
+				err = msg.PutString(ctx, string(str))
 			} else {
-				err = msg.PutStringBytes(kit.Bg, str)
+				err = msg.PutStringBytes(ctx, str)
 			}
 			want = nil
 			if c.AES && !c.KeyOff {
@@ -215,7 +232,7 @@ func runCase(c Case) result {
 			want = append(want, str...)
 			want = append(want, 0)
 			if err == nil {
-				err = msg.FinishMessage(kit.Bg)
+				err = msg.FinishMessage(ctx)
 			}
 		}
 		if err != nil {
@@ -248,9 +265,9 @@ func runCase(c Case) result {
 	recvOne := func(wantLen int) ([]byte, error) {
 		switch c.Recv {
 		case RComplete:
-			return R.ReceiveCompleteMessage(kit.Bg)
+			return R.ReceiveCompleteMessage(ctx)
 		case RReadBytes:
-			if err := R.StartMessageRead(kit.Bg); err != nil {
+			if err := R.StartMessageRead(ctx); err != nil {
 				return nil, err
 			}
 			var got []byte
@@ -260,7 +277,7 @@ func runCase(c Case) result {
 					n = wantLen - len(got)
 				}
 				buf := make([]byte, n)
-				k, err := R.ReadMessageBytes(kit.Bg, buf)
+				k, err := R.ReadMessageBytes(ctx, buf)
 				if err != nil {
 					return got, err
 				}
@@ -278,7 +295,7 @@ func runCase(c Case) result {
 			var got []byte
 			var pieces [][]byte
 			if wantLen < 0 { // probing for "no further message"
-				b, err := msg.GetBytes(kit.Bg, 1)
+				b, err := msg.GetBytes(ctx, 1)
 				return b, err
 			}
 			for len(got) < wantLen {
@@ -286,7 +303,7 @@ func runCase(c Case) result {
 				if n > wantLen-len(got) {
 					n = wantLen - len(got)
 				}
-				b, err := msg.GetBytes(kit.Bg, n)
+				b, err := msg.GetBytes(ctx, n)
 				if err != nil {
 					return got, err
 				}
@@ -297,7 +314,7 @@ func runCase(c Case) result {
 			}
 			// The message must end here: one more byte is io.EOF (also drains
 			// trailing empty frames up to the end flag).
-			if _, err := msg.GetChar(kit.Bg); err != io.EOF {
+			if _, err := msg.GetChar(ctx); err != io.EOF {
 				if err == nil {
 					return got, fmt.Errorf("message longer than expected")
 				}
@@ -306,12 +323,12 @@ func runCase(c Case) result {
 			return bytes.Join(pieces, nil), nil // a piece that changed after it was handed out shows up in the comparison
 		case RMsgRemaining:
 			msg := message.NewMessageFromStream(R)
-			return msg.GetRemainingBytes(kit.Bg)
+			return msg.GetRemainingBytes(ctx)
 		case RFrames:
 			var got []byte
 			var frames [][]byte // held as returned, joined at the end of the message
 			for {
-				d, end, err := R.ReceiveFrameWithEnd(kit.Bg)
+				d, end, err := R.ReceiveFrameWithEnd(ctx)
 				if err != nil {
 					return got, err
 				}
@@ -348,7 +365,7 @@ func runCase(c Case) result {
 	}
 	// Nothing further may be delivered as a complete message.
 	if c.Recv == RReadBytes {
-		if err := R.StartMessageRead(kit.Bg); err == nil {
+		if err := R.StartMessageRead(ctx); err == nil {
 			res.violation = "receiver produced an extra message after the accepted sequence"
 		}
 	} else if c.Recv == RMsgGetBytes && res.rejected && res.wireFrames > wireAtLastAccepted {
@@ -479,6 +496,7 @@ func genCase(t *rapid.T) Case {
 	}
 	c.KeyOff = c.AES && rapid.IntRange(0, 3).Draw(t, "keyoff") == 0
 	c.Dribble = rapid.SampledFrom([]int{0, 0, 0, 1, 3, 7, 4096}).Draw(t, "dribble")
+	c.Ctx = rapid.IntRange(0, 2).Draw(t, "ctx")
 	big := rapid.IntRange(0, 3).Draw(t, "bigcase") == 0 // <=25% of cases may contain >=1MiB messages
 	n := rapid.IntRange(1, 6).Draw(t, "nmsgs")
 	if big {
@@ -543,7 +561,7 @@ func TestC01Compositions(t *testing.T) {
 			for _, aes := range []bool{false, true} {
 				for _, snd := range []int{SPartials, SWriteMessage, STypedBytes} {
 					rcv := (mask + n + snd) % nRecv
-					c := Case{AES: aes, KeyOff: aes && (mask+n)%3 == 0, Dribble: []int{0, 1, 2, 5}[(mask+n+snd)%4], Prefix: (mask + n) % 4, Send: snd, Recv: rcv, Salt: uint32(n*4096 + mask),
+					c := Case{AES: aes, KeyOff: aes && (mask+n)%3 == 0, Dribble: []int{0, 1, 2, 5}[(mask+n+snd)%4], Ctx: (mask + n + rcv) % 3, Prefix: (mask + n) % 4, Send: snd, Recv: rcv, Salt: uint32(n*4096 + mask),
 						Msgs:  []Msg{{Len: n, Cuts: cuts, Flush: uint32(mask*7 + n)}, {Len: (n + 3) % 5, Cuts: nil}},
 						Reads: []int{1 + mask%3}}
 					r := runCase(c)
